@@ -156,6 +156,9 @@ def cigar_for(n, ordinal=0):
         return "1X", 0
     if n >= 3 and ordinal % 4 == 1:
         return f"1X1M{n - 2}=", n - 1  # M (match or mismatch) is a legal CIGAR operation as well
+    if n >= 2 and ordinal % 8 == 7:
+        # the unaligned base at either end of the read written as a soft clip (SAM operations beyond = X I D M are legal in cg:Z)
+        return f"1S1X{n - 1}=1S", n - 1
     return f"1X{n - 1}=", n - 1
 
 
